@@ -9,7 +9,8 @@ REQUIRED = ["CifModel.C08_firstChar_link", "CifModel.C08_fold_prefix", "CifModel
             "CifModel.C08_ws_lengthening_any_chunking",
             "CifModel.C08_bufscan_refines_lexer", "CifModel.C08_bufscan_refines_lexer_tree",
             "CifModel.C08_bufscan_boundaries_irrelevant", "CifModel.C08_bufscan_style_independent", "CifModel.C08_bufscan_refill",
-            "CifModel.C08_bufscan_offsets_ordered"]
+            "CifModel.C08_bufscan_offsets_ordered", "CifModel.C08_bufscan_trim_token", "CifModel.C08_bufscan_push_colon",
+            "CifModel.C08_bufscan_pushback_streams"]
 GEN = ["ParseConsts"]
 FAMILIES = ["fills", "align", "bufscan"]
 TRUSTED_BASE = [
@@ -45,10 +46,14 @@ PARTIAL = [
     "the 4096-byte refill of ustream_read_chars and ICU's incremental conversion are observed, not modelled (family align)",
     "C08_bufscan_refines_lexer covers the SCANNER (get_first_char, then next_token / CONSUME_TOKEN until END or abort, every scan "
     "function, every refill in the middle of a token, any chunking, any initial buffer size >= 2, any BUF_MIN_FILL >= 1). NOT covered by "
-    "a theorem, correspondence-only (fills P, align, parsedoc): what the grammar productions do to the buffer BETWEEN two next_token "
-    "calls — TRIM_TOKEN / REJECT_TOKEN (push-back of `:` and of table-value text), the NUL terminator written behind the current token "
-    "and restored (`*(token_value + token_length) = 0`), the BOM / magic-code prologue of cif_parse_internal (scan_to_ws followed by "
-    "`next_char = text_start`), the text handed to the whitespace callback; and decode_text's own terminator handling",
+    "the refinement of the whole PARSER: of what the grammar productions do to the buffer between two next_token calls, TRIM_TOKEN and "
+    "the colon push-back are modelled at buffer level, proved equal to group gJ's Parser.trimTok / Parser.pushColon "
+    "(C08_bufscan_trim_token, C08_bufscan_push_colon, C08_bufscan_pushback_streams: token streams in which pushed-back units are "
+    "scanned again) and tied by the ops mode of family bufscan; but the productions themselves are not re-stated over the buffer, so "
+    "a token pointer kept by a production across a next_token call, REJECT_TOKEN, the NUL terminator written behind the current "
+    "token and restored (`*(token_value + token_length) = 0`), the BOM / magic-code prologue of cif_parse_internal (scan_to_ws followed "
+    "by `next_char = text_start`), the text handed to the whitespace callback and decode_text's own terminator handling remain "
+    "correspondence-only (fills P, align, parsedoc)",
     "C08_ws_lengthening requires the two separators to end in the same column (lengthening blanks in front of a token on the "
     "same line moves the token: `;` in column 1 and the 2048-character limit make that a genuine precondition) and a "
     "callback policy that does not look at line numbers",
@@ -68,9 +73,9 @@ LEVEL_TEXT = ("Proof for terminator folding and chunking: Lean theorems over ALL
               "tvalue_start + tvalue_length <= next_char <= buffer_limit <= buffer_size); replacing a separator by "
               "any other whitespace/comment run leaves the whole following token stream unchanged up to the line shift "
               "(C08_ws_lengthening, on gD's C01_lex_sep plus the line-shift invariance of the lexer model proved here).")
-LEVEL_NOTE = ("Partial in the respects named in PARTIAL (byte-buffer refills / ICU observed only; the productions' own buffer "
-              "manipulations between tokens — TRIM_TOKEN, REJECT_TOKEN, in-buffer NUL terminator, BOM / magic prologue — are "
-              "correspondence-only; same-column precondition of C08_ws_lengthening). Trusted: Lean kernel, the hand-written Fill, "
+LEVEL_NOTE = ("Partial in the respects named in PARTIAL (byte-buffer refills / ICU observed only; of the productions' own buffer "
+              "manipulations between tokens TRIM_TOKEN and the colon push-back are proved, REJECT_TOKEN, the in-buffer NUL "
+              "terminator, the BOM / magic prologue are correspondence-only; same-column precondition of C08_ws_lengthening). Trusted: Lean kernel, the hand-written Fill, "
               "ScanBuf and BufScan models (tied exhaustively on short streams under every chunking with 2- and 3-unit buffers, "
               "and by random documents), translate_consts.py, harness + oracles.")
 TECHNIQUE = "Lean 4 proof by induction over chunkings with the carried scanner state as invariant, refinement (simulation) of the list-level lexer by the buffer-level scanner + exhaustive/random differential execution of the real fill functions, scanner and parser"
